@@ -643,7 +643,7 @@ func (s *scope) finaliseVarAlloc(stackOffset int) (stashSize, stackSize int) {
 			for scope, aps := range b.accessPoints {
 				var level uint32
 				for sc := scope; sc != nil && sc != s; sc = sc.outer {
-					if sc.needStash || sc.isDynamic() {
+					if sc.hasStash() {
 						level++
 					}
 				}
@@ -733,7 +733,7 @@ func (s *scope) finaliseVarAlloc(stackOffset int) (stashSize, stackSize int) {
 			for scope, aps := range b.accessPoints {
 				var level int
 				for sc := scope; sc != nil && sc != s; sc = sc.outer {
-					if sc.needStash || sc.isDynamic() {
+					if sc.hasStash() {
 						level++
 					}
 				}
@@ -897,6 +897,33 @@ func (s *scope) makeNamesMap() map[unistring.String]uint32 {
 
 func (s *scope) isDynamic() bool {
 	return s.dynLookup || s.dynamic
+}
+
+// hasStash reports whether the scope has a stash of its own at run time, i.e. whether it counts as a level
+// when a variable of an outer scope is addressed from inside it. The flags alone do not tell:
+//   - a block scope that a direct eval marked for dynamic lookup, is not a variable scope and has no bindings
+//     (`{ const [] = x; eval(s) }`, an anonymous class body) gets no stash: enterBlock creates one only for a
+//     non-zero stash size;
+//   - needStash stays set when the only binding that was moved to the stash is deleted afterwards (an unused
+//     class name or function-expression name that is only assigned to from a nested function).
+func (s *scope) hasStash() bool {
+	if s.dynamic {
+		return true
+	}
+	if s.dynLookup {
+		return s.funcType != funcNone || s.outer == nil || s.variable || len(s.bindings) > 0
+	}
+	if s.needStash {
+		if s.argsInStash {
+			return true
+		}
+		for _, b := range s.bindings {
+			if b.inStash {
+				return true
+			}
+		}
+	}
+	return false
 }
 
 func (s *scope) isFunction() bool {
